@@ -216,3 +216,46 @@ MUTANTS += [
     {"id": "C18-unwrap-in-free-modifier-helper", "prop": "C18", "expect": "PANIC-SITE/modifier_by_name",
      "edits": [(K, _MODS_OLD, _MATCH_CALL), (K, _CHORD_STRUCT, _helper(True).replace('    Some(match attr {', '    let attr = attr.strip_prefix("mod-").unwrap();\n    Some(match attr {'))]},
 ]
+
+
+# ---- helper whose result goes through a local (`let m = match attr {.., _ => return None}; Some(m)`), loop with let-else (seeded benign C19-M);
+# ---- single-character classes decided by a match nested under `(Some(c), None)` (seeded benign C18-O)
+def _helper_let(alt="KeyMod::ALT", wrapped=True):
+    h = _helper(wrapped, alt=alt)
+    if wrapped:
+        return h.replace("    Some(match attr {", "    let modifier = match attr {").replace("        _ => return None,\n    })\n", "        _ => return None,\n    };\n    Some(modifier)\n")
+    return h.replace("    match attr {", "    let found = match attr {").replace("        _ => None,\n    }\n", "        _ => None,\n    };\n    found\n")
+
+
+_LETELSE_LOOP = ('            let attr = attr.to_lowercase();\n            if let Some(modifier) = modifier_by_name(&attr) {\n                key_mod |= modifier;\n                continue;\n            }\n'
+                 '            let Ok(name) = attr.parse::<KeyName>() else {\n                break;\n            };\n'
+                 '            if key_name.replace(name).is_some() {\n                key_name.take();\n                break;\n            }\n')
+
+
+def _one_char_nested(first="'a'..='z' | '0'..='9'", second="None", outer="c"):
+    return ("            cs => {\n                let mut chars = cs.chars();\n                match (chars.next(), chars.next()) {\n"
+            "                    (Some(%s), %s) => match c {\n"
+            "                        %s => KeyName::Char(c),\n"
+            "                        '`' | '-' | '=' | '[' | ']' | '\\\\' | ';' | ',' | '.' | '/' => {\n                            KeyName::Char(c)\n                        }\n"
+            '                        _ => return Err(Error::ParseError("KeyName", string.to_string())),\n                    },\n'
+            '                    _ => return Err(Error::ParseError("KeyName", string.to_string())),\n                }\n            }\n') % (outer, second, first)
+
+
+MUTANTS += [
+    {"id": "C18-benign-modifier-helper-let-then-some", "prop": "C18", "benign": True,
+     "edits": [(K, _MODS_OLD + _NAME_TAIL, _LETELSE_LOOP), (K, _CHORD_STRUCT, _helper_let())]},
+    {"id": "C18-benign-modifier-helper-let-then-tail", "prop": "C18", "benign": True,
+     "edits": [(K, _MODS_OLD, _MATCH_CALL), (K, _CHORD_STRUCT, _helper_let(wrapped=False))]},
+    {"id": "C18-modifier-helper-let-alt-sets-ctrl", "prop": "C18", "expect": "MOD-ROUNDTRIP",
+     "edits": [(K, _MODS_OLD + _NAME_TAIL, _LETELSE_LOOP), (K, _CHORD_STRUCT, _helper_let(alt="KeyMod::CTRL"))]},
+    {"id": "C18-modifier-helper-let-mutated-after", "prop": "C18", "expect": "MOD-ROUNDTRIP/ANCHOR",
+     "edits": [(K, _MODS_OLD + _NAME_TAIL, _LETELSE_LOOP),
+               (K, _CHORD_STRUCT, _helper_let().replace("    let modifier = match", "    let mut modifier = match").replace("    Some(modifier)\n", "    modifier |= KeyMod::PRESS;\n    Some(modifier)\n"))]},
+    {"id": "C18-benign-one-char-nested-match", "prop": "C18", "benign": True, "edits": [(K, _ONE_CHAR_OLD, _one_char_nested())]},
+    {"id": "C18-benign-one-char-nested-match-outer-class", "prop": "C18", "benign": True,
+     "edits": [(K, _ONE_CHAR_OLD, _one_char_nested(outer="c @ ' '..='~'"))]},
+    {"id": "C18-one-char-nested-match-extra-char", "prop": "C18", "expect": "NAME-ROUNDTRIP/KeyName::from_str/row:char:",
+     "edits": [(K, _ONE_CHAR_OLD, _one_char_nested(first="'a'..='z' | '0'..='9' | '*'"))]},
+    {"id": "C18-one-char-nested-match-accepts-longer", "prop": "C18", "expect": "NAME-ROUNDTRIP/ANCHOR/KeyName::from_str",
+     "edits": [(K, _ONE_CHAR_OLD, _one_char_nested(second="_"))]},
+]
